@@ -204,6 +204,17 @@ def code_set_applies(kind, intervals, axis):
     """
     item = _make_item(kind, intervals)
     got = [bool(item.applies(x)) for x in axis]
+    # r6c08B: an item that was used with another interval (far away from the axis) before this one was assigned to it, and a deep copy of a
+    # used item, act on the interval they carry now
+    import copy
+
+    used = _make_item(kind, [-1.0e9, -0.9e9] if len(axis) % 2 else [[-1.0e9, -0.9e9], [0.8e9, 0.9e9]])
+    [used.applies(x) for x in axis]
+    clone = copy.deepcopy(used)
+    for variant, it in (("reassigned", used), ("reassigned_on_copy", clone)):
+        it.interval = _model_intervals(intervals)
+        again = [bool(it.applies(x)) for x in axis]
+        check(again == got, f"{kind}.interval_{variant}", lambda: f"applies={again} after assigning interval {intervals} to a used item, {got} for a fresh item; axis={axis}")
     if kind == "only":
         return frozenset(i for i, g in enumerate(got) if not g), got
     return frozenset(i for i, g in enumerate(got) if g), got
